@@ -94,7 +94,7 @@ Conclude(e, aligned, resok, cands) ==
   ELSE IF ~aligned THEN Fail("C09/harness/unaligned")
   ELSE IF ~resok THEN Fail("C09/result/" \o e.ev)
   ELSE
-    LET m == {c \in cands : c.s = e.saved /\ c.r = e.data /\ c.w = e.wr} IN
+    LET m == {c \in cands : c.s = e.saved /\ c.r = e.data /\ (IF e.wrok = 1 THEN c.w = e.wr ELSE mk * Len(c.w) = e.writelen)} IN
     IF m = {} THEN
        IF \A c \in cands : c.r # e.data /\ \E t \in Range(e.data) : t \in Range(c.w) /\ t \notin Range(c.r)
          THEN Fail("C09/uncommitted-visible")
